@@ -210,6 +210,228 @@ def _work(job):
     return ('pairs',) + pairs_and_sorter(job[1], job[2])
 
 
+# ---------------------------------------------------------------------------- deductive: the functions on every shape
+_ORACLE = {}
+
+
+def _opat(rx):
+    from pyvc import symre
+    if rx not in _ORACLE:
+        _ORACLE[rx] = symre.SymRe(re.compile(rx))
+    return _ORACLE[rx]
+
+
+def _digits(cells):
+    """z3 Int value of a run of ASCII-digit cells"""
+    from pyvc import sstr as S
+    return S.SStr((' ',))._digits_value(list(cells)) if cells else z3.IntVal(0)
+
+
+def _decimal(sub):
+    """(numerator, denominator) of a digits[.digits] string of cells"""
+    from pyvc import sstr as S
+    cells = list(S.cells_of(sub))
+    if '.' in [c for c in cells if isinstance(c, str)]:
+        i = [k for k, c in enumerate(cells) if isinstance(c, str) and c == '.'][0]
+        ip, fp = cells[:i], cells[i + 1:]
+    else:
+        ip, fp = cells, []
+    return _digits(ip) * 10 ** len(fp) + _digits(fp), 10 ** len(fp)
+
+
+def sym_expected_group(P, s):
+    """the sort group the statement assigns, from the event-code families (forks on the symbolic matches)"""
+    from pyvc.builtins_sym import sym_in
+    if P['PAT_THROWS'].match(s):
+        return 4
+    if P['PAT_JUMPS'].match(s):
+        return 3
+    if P['PAT_RELAYS'].match(s):
+        return 5
+    if P['PAT_HURDLES'].match(s):
+        return 2
+    if P['PAT_TRACK'].match(s):
+        return 2 if sym_in(s.upper(), ('SC', 'SH', 'LH')) else 1
+    return 6
+
+
+def sym_leg(P, s):
+    """(legs, numerator, denominator, unit) of a relay with numeric legs, else None"""
+    from pyvc import sstr as S
+    m = P['PAT_RELAYS'].match(s)
+    if not m or m.group(3) is None:
+        return None
+    num, den = _decimal(m.group(3))
+    suf = S.cells_of(m.group(2))[len(S.cells_of(m.group(3))):]
+    unit = 1
+    if suf:
+        x = S.mk(suf).upper()
+        unit = 1000 if x == 'K' else 1609 if x == 'M' else 1
+    return _digits(S.cells_of(m.group(1))), num, den, unit
+
+
+def sym_expected_distance(P, s, group):
+    """z3 constraint on the distance component d of the key (a function d -> BoolRef), or None where the statement leaves it open"""
+    from pyvc import sstr as S
+    if group in (1, 2):
+        if _opat(r'^[mM][iI][lL][eE]').match(s):
+            return lambda d: d == 1609
+        m = _opat(r'^(\d)[mM][iI][lL][eE]').match(s) or _opat(r'^([2345])[mM][tT]$').match(s)
+        if m:
+            v = _digits(S.cells_of(m.group(1)))
+            return lambda d: d == 1609 * v
+        m = _opat(r'^(\d+)').match(s)
+        if m:
+            v = _digits(S.cells_of(m.group(1)))
+            return lambda d: d == v
+        return None
+    if group == 5:
+        leg = sym_leg(P, s)
+        if leg is None:
+            return None
+        legs, num, den, unit = leg
+        if den == 1 and unit == 1:
+            return lambda d: d == num
+        # whole metres of the leg; the binary product may fall one short
+        return lambda d: z3.And(d * den <= unit * num, d * den > unit * num - 2 * den)
+    return None
+
+
+_NS = {}
+
+
+def _namespace():
+    from props import codeshapes as CS
+    from pyvc import symre
+    if 'ns' not in _NS:
+        ns = CS.Namespace(['get_distance', 'discipline_sort_key', 'text_discipline_sort_key', 'get_duration_event_time'])
+        a = real_module('athlib.athlon_score')
+        agm = real_module('athlib.wma.agegrader')
+        un = instrument(a.unit_name, shadows=symre.shadows_for(a))
+        kd = instrument(agm.AgeGrader.event_code_to_kind, shadows=symre.shadows_for(agm))
+        _NS['ns'] = (ns, un, kd, CS.sym_patterns())
+    return _NS['ns']
+
+
+def unit_shapes(job):
+    """the seven functions on the symbolic string "any content of this shape", for a list of shapes"""
+    from pyvc import sstr as S, unit as U
+    from pyvc.core import ctx
+    from pyvc.values import zint, SInt
+    from pyvc.builtins_sym import sym_eq, sym_format, zbool
+    from props import codeshapes as CS
+    ns, un_f, kd_f, P = _namespace()
+    res_all = None
+    for fam, shape in job:
+        def run():
+            c = ctx()
+            s = S.SStr.fresh('s', shape)
+
+            def call(name, f, *a):
+                try:
+                    return True, f(*a)
+                except Exception as e:
+                    c.oblige('%s/returns-a-value' % name, False, 'raises', meta=dict(exc=type(e).__name__))
+                    return False, None
+            ok, k = call('discipline_sort_key', ns['discipline_sort_key'], s)
+            g = sym_expected_group(P, s)
+            if ok:
+                c.oblige('discipline_sort_key/returns-a-value', True, 'raises')
+                shape_ok = isinstance(k, tuple) and len(k) == 3 and isinstance(k[0], (int, SInt)) and not isinstance(k[0], bool) \
+                    and isinstance(k[1], (int, SInt)) and not isinstance(k[1], bool) and k[2] is s
+                c.oblige('discipline_sort_key/key-is-(group, distance>=0, code)', zbool(shape_ok) if not shape_ok else zint(k[1]) >= 0, 'post')
+                if shape_ok:
+                    c.oblige('discipline_sort_key/group-of-the-family', zint(k[0]) == g, 'post', meta=dict(expected=g))
+                    e = sym_expected_distance(P, s, g)
+                    if e is not None:
+                        c.oblige('discipline_sort_key/distance-component', e(zint(k[1])), 'post')
+                ok2, t = call('text_discipline_sort_key', ns['text_discipline_sort_key'], s)
+                if ok2:
+                    c.oblige('text_discipline_sort_key/renders-the-key', zbool(sym_eq(t, sym_format('%d_%05d_%s', k))) if shape_ok else z3.BoolVal(False), 'post')
+            ok, dist = call('get_distance', ns['get_distance'], s)
+            if ok:
+                good = dist is None or (isinstance(dist, (int, SInt)) and not isinstance(dist, bool))
+                c.oblige('get_distance/none-or-whole-metres>=0', (zint(dist) >= 0) if (good and dist is not None) else z3.BoolVal(good), 'post')
+                leg = sym_leg(P, s) if g == 5 else None
+                if leg is not None:
+                    legs, num, den, unit = leg
+                    if not good or dist is None:
+                        c.oblige('get_distance/relay=legs-x-leg', False, 'post')
+                    elif den == 1 and unit == 1:
+                        c.oblige('get_distance/relay=legs-x-leg', zint(dist) == legs * num, 'post')
+                    else:
+                        c.oblige('get_distance/relay=legs-x-leg', z3.And(zint(dist) * den <= legs * unit * num,
+                                                                       z3.Or(legs == 0, zint(dist) * den > legs * (unit * num - 2 * den))), 'post')
+            ok, dur = call('get_duration_event_time', ns['get_duration_event_time'], s)
+            if ok:
+                isdur = bool(P['PAT_RACES_FOR_DISTANCE'].match(s))
+                c.oblige('get_duration_event_time/a-time-exactly-for-duration-events', (dur is not None) == isdur, 'post')
+            ok, un = call('unit_name', un_f, s)
+            if ok:
+                c.oblige('unit_name/metres-or-seconds', isinstance(un, str) and un in ('metres', 'seconds'), 'post')
+            ok, kd = call('event_code_to_kind', kd_f, s)
+            if ok:
+                c.oblige('event_code_to_kind/a-kind', isinstance(kd, str), 'post')
+            return None
+
+        r = U.verify('functions[%s]' % CS.show(shape), run, None, want_sample=(res_all is None))
+        for x in r['results']:
+            x['ctx'] = dict(shape=[c if isinstance(c, str) else list(c.r) for c in shape])
+        if res_all is None:
+            res_all = r
+        else:
+            res_all['results'] += r['results']
+            res_all['paths'] += r['paths']
+            res_all['wall'] += r['wall']
+            res_all['assumptions'] = sorted(set(res_all['assumptions']) | set(r['assumptions']))
+            for k, v in r['stats'].items():
+                if isinstance(v, int):
+                    res_all['stats'][k] = res_all['stats'].get(k, 0) + v
+    res_all['unit'] = 'functions-on-shapes[%d]' % len(job)
+    res_all['nshapes'] = len(job)
+    return res_all
+
+
+def conc_shape(r):
+    """the counter-model as a code; judged by the run-time contract on the real functions"""
+    from pyvc import sstr as S, shapes as SH
+    shape = [c if isinstance(c, str) else S.CC(c) for c in r['ctx']['shape']]
+    s = SH.concretise(shape, r.get('model') or {})
+    w = check_code(s) if codes().PAT_EVENT_CODE.match(s) else None
+    return dict(call='event code %r' % s, observed=w or 'the run-time contract holds', input=['code', s]), bool(w)
+
+
+def format_order_lemma(run):
+    """text key order = tuple order: for keys (g, d, tail) with one-digit g and 0 <= d < 100000, '%d_%05d_%s' compares like the
+    tuple (symbolic g, d; tails of up to two arbitrary characters) - with the per-shape obligation "the text key renders the
+    key" this carries the clause to every pair of codes"""
+    from pyvc import sstr as S, unit as U
+    from pyvc.core import ctx
+    from pyvc.values import mkint, zbool
+    from pyvc.builtins_sym import sym_format
+    out = []
+    for la in (0, 1, 2):
+        for lb in (0, 1, 2):
+            def runl():
+                c = ctx()
+                vs = []
+                for n in ('g1', 'd1', 'g2', 'd2'):
+                    v = z3.Int(n)
+                    c.declare_input(n, v)
+                    vs.append(v)
+                g1, d1, g2, d2 = vs
+                c.assume(z3.And(g1 >= 0, g1 <= 9, g2 >= 0, g2 <= 9, d1 >= 0, d1 < 100000, d2 >= 0, d2 < 100000))
+                a = S.SStr.fresh('a', [S.ANYCHAR] * la) if la else ''
+                b = S.SStr.fresh('b', [S.ANYCHAR] * lb) if lb else ''
+                ta = sym_format('%d_%05d_%s', (mkint(g1), mkint(d1), a)).force()
+                tb = sym_format('%d_%05d_%s', (mkint(g2), mkint(d2), b)).force()
+                tail_lt = zbool(a < b) if (la or lb) else z3.BoolVal(False)
+                tup_lt = z3.Or(g1 < g2, z3.And(g1 == g2, z3.Or(d1 < d2, z3.And(d1 == d2, tail_lt))))
+                c.oblige('lemma/text-key-order-is-tuple-order', zbool(ta < tb) == tup_lt, 'lemma')
+            out.append(U.verify('format-order[%d,%d]' % (la, lb), runl, None, want_sample=False))
+    return out
+
+
 # ---------------------------------------------------------------------------- deductive: regular-language obligations
 def ci(word):
     """case-insensitive literal as z3 regex"""
